@@ -62,6 +62,11 @@ def obligations(tier):
                     for notif in ((False, True) if ncalls == 2 else (False,)):
                         obs.append({'h': 'batch', 'ncalls': ncalls, 'els': list(combo), 'notif': notif, 'strict': strict,
                                     'kind': kind, '_weight': 4 ** n})
+                        if ncalls >= 2 and n == ncalls and set(combo) <= {'ok_i', 'err_i'} and combo.count('err_i') <= 1:
+                            # the same batch request built incrementally (append / extend onto a non-empty batch)
+                            for build in ('append', 'extend'):
+                                obs.append({'h': 'batch', 'ncalls': ncalls, 'els': list(combo), 'notif': notif, 'strict': strict,
+                                            'kind': kind, 'build': build, '_weight': 4 ** n})
     if tier == 'thorough':
         for kind, strict in it.product(('sync', 'async'), (True,)):
             for n in range(3, 6):
@@ -233,7 +238,15 @@ def h_batch(ob):
         reqs = [pjrpc.Request('m', [i], id=i) for i in range(1, ncalls + 1)]
         if ob['notif']:
             reqs.insert(1, pjrpc.Request('n', [0]))
-        br = pjrpc.BatchRequest(*reqs)
+        if ob.get('build') == 'append':
+            br = pjrpc.BatchRequest()
+            for q in reqs:
+                br.append(q)
+        elif ob.get('build') == 'extend':
+            br = pjrpc.BatchRequest(reqs[0])
+            br.extend(reqs[1:])
+        else:
+            br = pjrpc.BatchRequest(*reqs)
         call_ids = list(range(1, ncalls + 1))
         body, tags = [], []
         for j, k in enumerate(ob['els']):
